@@ -410,7 +410,8 @@ func (p c10) Eval(c *Case, outs []*Out) []Discrepancy {
 				}
 				if allClash {
 					cls += ":nameclash"
-				} else if len(dupTypes) == 1 && dupTypes[0] == "type Sub" {
+				} else if hasStr(dupTypes, "type Sub") {
+					// (together with Sub, inline types of what it refers to may be declared again)
 					for _, r := range meta.Refs {
 						if r.Spelling == "samename:ref-target" {
 							cls += ":samename:ref-target" // known finding KF-C10-6
@@ -554,6 +555,15 @@ func (p c10) Eval(c *Case, outs []*Out) []Discrepancy {
 		}
 	}
 	return dedupe(ds)
+}
+
+func hasStr(a []string, s string) bool {
+	for _, x := range a {
+		if x == s {
+			return true
+		}
+	}
+	return false
 }
 
 var cbTagRe = regexp.MustCompile(`:"(cb_[A-Za-z0-9_]+)[",]`)
